@@ -75,10 +75,11 @@ struct Judge {
 }
 
 /// Checks one finished run; returns the first problem.
-fn judge(text: &str, scripts: &[Vec<Call>], results: &[Option<Vec<Answer>>], stuck: &Option<Stuck>, view: &Arc<SourceView>) -> Option<(String, String)> {
+fn judge(text: &str, scripts: &[Vec<Call>], results: &[Option<Vec<Answer>>], stuck: &Option<Stuck>, view: &Arc<SourceView>, controlled: bool) -> Option<(String, String)> {
     if let Some(s) = stuck {
         return Some(match s {
             Stuck::Deadlock(w) => ("deadlock".to_string(), format!("no worker can make progress; workers are at {w:?}")),
+            Stuck::Livelock(k) => ("livelock".to_string(), format!("after {k} yield points some worker still has not finished its calls (it keeps spinning on the view's lock/atomics)")),
             // a wall-clock guard is never a verdict: reported as inconclusive by the callers
             Stuck::NoProgress => ("INCONCLUSIVE:no-progress".to_string(), "the scheduled worker neither reached a yield point nor finished within 60 s of wall time".to_string()),
         });
@@ -98,10 +99,39 @@ fn judge(text: &str, scripts: &[Vec<Call>], results: &[Option<Vec<Answer>>], stu
             }
         }
     }
-    // the view must still be usable by a later caller
-    for c in [Call::Line(0), Call::Count, Call::Lines, Call::Line(1)] {
-        let got = exec(view, c);
-        let want = expected(text, c);
+    // the view must still be usable by a later caller. The probe runs as a single controlled
+    // worker, so that a caller that would spin or block forever is recognised by the logical step
+    // bound / the lock model instead of hanging the monitor.
+    probe(text, view, controlled)
+}
+
+const PROBE: [Call; 5] = [Call::Line(0), Call::Count, Call::Lines, Call::Line(1), Call::Line(9)];
+
+fn probe(text: &str, view: &Arc<SourceView>, controlled: bool) -> Option<(String, String)> {
+    let answers: Vec<Answer> = if controlled {
+        let v = view.clone();
+        let body: Box<dyn FnOnce() -> Vec<Answer> + Send + 'static> = Box::new(move || PROBE.iter().map(|c| exec(&v, *c)).collect());
+        let out = run_controlled(vec![body], Policy::Prefix(&[]));
+        match out.stuck {
+            Some(Stuck::Livelock(k)) => return Some(("view-unusable-afterwards".into(), format!("a later caller never finishes: still spinning on the view after {k} yield points"))),
+            Some(Stuck::Deadlock(w)) => return Some(("view-unusable-afterwards".into(), format!("a later caller blocks forever on the view: {w:?}"))),
+            Some(Stuck::NoProgress) => return Some(("INCONCLUSIVE:no-progress".into(), "the probe caller made no progress for 60 s of wall time".into())),
+            None => out.results.into_iter().next().flatten().unwrap_or_default(),
+        }
+    } else {
+        // free-running: the probe gets its own thread and a wall-clock guard (inconclusive when it fires)
+        let v = view.clone();
+        let (tx, rx) = std::sync::mpsc::channel();
+        std::thread::spawn(move || {
+            let _ = tx.send(PROBE.iter().map(|c| exec(&v, *c)).collect::<Vec<_>>());
+        });
+        match rx.recv_timeout(std::time::Duration::from_secs(120)) {
+            Ok(a) => a,
+            Err(_) => return Some(("INCONCLUSIVE:probe-timeout".into(), "the probe caller did not return within 120 s of wall time".into())),
+        }
+    };
+    for (c, got) in PROBE.iter().zip(answers) {
+        let want = expected(text, *c);
         if got != want {
             return Some(("view-unusable-afterwards".into(), format!("after all threads finished, {c:?} on the same view gives {got:?}, expected {want:?}")));
         }
@@ -167,7 +197,7 @@ fn explore(ctx: &mut Ctx, j: &mut Judge, stream: &str, n: u64, text: &'static st
             });
         }
         if !reported {
-            if let Some((sig, desc)) = judge(text, scripts, &out.results, &out.stuck, &view) {
+            if let Some((sig, desc)) = judge(text, scripts, &out.results, &out.stuck, &view, true) {
                 reported = true;
                 if sig.starts_with("INCONCLUSIVE") {
                     ctx.inconclusive(format!("{desc} [text {text:?}, stream {stream}, case {n}]"));
@@ -193,21 +223,31 @@ fn explore(ctx: &mut Ctx, j: &mut Judge, stream: &str, n: u64, text: &'static st
     count
 }
 
-fn stress_round(text: &'static str, scripts: &[Vec<Call>]) -> (Vec<Vec<Answer>>, Arc<SourceView>) {
+/// One free-running round. None = the threads did not all finish within the wall-clock guard
+/// (they are left behind detached; the caller stops the stream and reports *inconclusive*).
+fn stress_round(text: &'static str, scripts: &[Vec<Call>]) -> Option<(Vec<Vec<Answer>>, Arc<SourceView>)> {
     let view = Arc::new(SourceView::new(text.into()));
     let barrier = Arc::new(Barrier::new(scripts.len()));
-    let handles: Vec<_> = scripts
-        .iter()
-        .map(|script| {
-            let (view, barrier, script) = (view.clone(), barrier.clone(), script.clone());
-            std::thread::spawn(move || {
-                barrier.wait();
-                script.iter().map(|c| exec(&view, *c)).collect::<Vec<_>>()
-            })
-        })
-        .collect();
-    let res = handles.into_iter().map(|h| h.join().unwrap_or_else(|_| vec![Answer::Panic("worker thread died".into())])).collect();
-    (res, view)
+    let (tx, rx) = std::sync::mpsc::channel();
+    for (i, script) in scripts.iter().enumerate() {
+        let (view, barrier, script, tx) = (view.clone(), barrier.clone(), script.clone(), tx.clone());
+        std::thread::spawn(move || {
+            barrier.wait();
+            let r = script.iter().map(|c| exec(&view, *c)).collect::<Vec<_>>();
+            let _ = tx.send((i, r));
+        });
+    }
+    drop(tx);
+    let deadline = std::time::Instant::now() + std::time::Duration::from_secs(120);
+    let mut res: Vec<Option<Vec<Answer>>> = vec![None; scripts.len()];
+    for _ in 0..scripts.len() {
+        let left = deadline.saturating_duration_since(std::time::Instant::now());
+        match rx.recv_timeout(left) {
+            Ok((i, r)) => res[i] = Some(r),
+            Err(_) => return None,
+        }
+    }
+    Some((res.into_iter().map(|r| r.unwrap_or_default()).collect(), view))
 }
 
 fn random_scripts(rng: &mut Rng, text: &str, threads: usize, calls: usize) -> Vec<Vec<Call>> {
@@ -281,7 +321,7 @@ pub fn run(ctx: &mut Ctx) {
         let (out, view) = controlled_once(t, &s, Policy::Random(&mut rng));
         note_run(ctx, &mut j, scen_hash, &out);
         ctx.bucket(&format!("sampled:{th}x{ca}"));
-        if let Some((sig, desc)) = judge(t, &s, &out.results, &out.stuck, &view) {
+        if let Some((sig, desc)) = judge(t, &s, &out.results, &out.stuck, &view, true) {
             if sig.starts_with("INCONCLUSIVE") {
                 ctx.inconclusive(format!("{desc} [sampled case {n}]"));
                 continue;
@@ -307,9 +347,21 @@ fn stress(ctx: &mut Ctx, rounds: u64, tiny: bool) {
         ctx.op_n("calls", (threads * calls) as u64);
         ctx.bucket(&format!("free-running:{threads}-threads"));
         ctx.nontrivial(crate::rng::mix(n, crate::rng::fnv1a(scenario_json(t, &s).to_string().as_bytes())));
-        let (res, view) = stress_round(t, &s);
+        let (res, view) = match stress_round(t, &s) {
+            Some(x) => x,
+            None => {
+                // a wall-clock guard is not a verdict; the stuck threads cannot be reclaimed, so the
+                // stream ends here (what was recorded so far is still reported)
+                ctx.inconclusive(format!("free-running round {n} ({threads} threads x {calls} calls on {t:?}) did not finish within 120 s of wall time"));
+                return;
+            }
+        };
         let res: Vec<Option<Vec<Answer>>> = res.into_iter().map(Some).collect();
-        if let Some((sig, desc)) = judge(t, &s, &res, &None, &view) {
+        if let Some((sig, desc)) = judge(t, &s, &res, &None, &view, false) {
+            if sig.starts_with("INCONCLUSIVE") {
+                ctx.inconclusive(format!("{desc} [free-running round {n}]"));
+                return;
+            }
             ctx.violation(&sig, "free-running", n, format!("free-running threads: {desc} [text {t:?}]"), json!({"scenario": scenario_json(t, &s)}));
         }
         if n < 16 {
